@@ -40,6 +40,18 @@ def deadline(seconds: float):
         signal.signal(signal.SIGALRM, old)
 
 
+@contextmanager
+def cpu_deadline(seconds: float):
+    """Watchdog on the process's own CPU time (ITIMER_VIRTUAL): immune to the machine being busy with other work."""
+    old = signal.signal(signal.SIGVTALRM, _on_alarm)
+    signal.setitimer(signal.ITIMER_VIRTUAL, seconds)
+    try:
+        yield
+    finally:
+        signal.setitimer(signal.ITIMER_VIRTUAL, 0)
+        signal.signal(signal.SIGVTALRM, old)
+
+
 class Result:
     """Mergeable per-shard result."""
 
